@@ -51,6 +51,10 @@ def make_field(rng, ny, nx, kind):
             f[0, 0] = 1.0
     elif kind == "magnitudes":
         f = rng.random((ny, nx)) * 10.0 ** rng.integers(-200, 200)
+    elif kind == "int_counts":  # integer dtype (hit counts)
+        f = rng.integers(0, 50, size=(ny, nx)).astype(np.int64)
+        if f.sum() == 0:
+            f[0, 0] = 1
     elif kind == "wide":
         f = 10.0 ** rng.uniform(-12, 0, size=(ny, nx))
     else:
@@ -108,7 +112,7 @@ def run_case(case):
     counters = {"get_source_area_calls": 0, "percentile_calls": 0, "in_rounding_band": 0, "transform_checks": 0, "perm_checks": 0}
 
     ny, nx = int(rng.integers(2, 41)), int(rng.integers(2, 41))
-    fkind = str(rng.choice(["random", "sparse", "ties", "zeros", "magnitudes", "wide", "solver"]))
+    fkind = str(rng.choice(["random", "sparse", "ties", "zeros", "magnitudes", "wide", "solver", "int_counts"]))
     dx, dy = float(rng.uniform(0.5, 20)), float(rng.uniform(0.5, 20))
     x1, y1 = np.arange(nx) * dx, np.arange(ny) * dy
     X, Y = np.meshgrid(x1, y1)
